@@ -283,6 +283,20 @@ public:
         J.attribute("name", GS->getLabel()->getNameAsString());
       } else if (auto *OE = dyn_cast<OffsetOfExpr>(S)) {
         J.attribute("argty", typeStr(OE->getTypeSourceInfo()->getType()));
+        std::string path;
+        for (unsigned i = 0; i < OE->getNumComponents(); ++i) {
+          const OffsetOfNode &ON = OE->getComponent(i);
+          if (ON.getKind() == OffsetOfNode::Field) {
+            if (!path.empty())
+              path += ".";
+            path += ON.getField()->getName().str();
+          } else if (ON.getKind() == OffsetOfNode::Array) {
+            path += "[]";
+          } else {
+            path += "?";
+          }
+        }
+        J.attribute("opath", path);
       } else if (auto *AS = dyn_cast<GCCAsmStmt>(S)) {
         J.attribute("str", AS->getAsmString()->getString());
       } else if (auto *AE = dyn_cast<AtomicExpr>(S)) {
